@@ -38,7 +38,7 @@ pub fn run(ctx: &Ctx) -> i32 {
         }
     });
     // ---- controlled read-fill races: one writer op x 1-2 reader ops, entry and exit gates
-    let n_ctl = ctx.tier.pick(24, 96);
+    let n_ctl = ctx.tier.pick(72, 144);
     par_cases(ctx, &mon, "ctl", n_ctl, |cc, rng, l| {
         let key_kind = (cc.idx % 3) as u8;
         let n_readers = 1 + (cc.idx / 3 % 2) as usize;
@@ -47,7 +47,7 @@ pub fn run(ctx: &Ctx) -> i32 {
         let mut dfs = Dfs::new(ctx.tier.pick(2, 3) + with_flush as usize);
         let mut n = 0;
         loop {
-            controlled(key_kind, n_readers, in_txn, with_flush, &mut dfs, l);
+            controlled(key_kind, n_readers, in_txn, with_flush, (cc.idx / 24) as usize % 3, &mut dfs, l);
             n += 1;
             if !dfs.advance() || n >= ctx.tier.pick(600, 5000) {
                 break;
@@ -386,7 +386,7 @@ fn summarize(r: &Option<DbRecord>) -> String {
 }
 
 /// One writer op and 1-2 reader ops on one cached manager, every order of entry/exit gates up to the bound.
-fn controlled(key_kind_idx: u8, n_readers: usize, writer_in_txn: bool, with_flush: bool, strategy: &mut dyn Strategy, l: &mut Local) {
+fn controlled(key_kind_idx: u8, n_readers: usize, writer_in_txn: bool, with_flush: bool, reader_path: usize, strategy: &mut dyn Strategy, l: &mut Local) {
     let key = match key_kind_idx {
         0 => Key::Node(0),
         1 => Key::Vs(1),
@@ -418,8 +418,15 @@ fn controlled(key_kind_idx: u8, n_readers: usize, writer_in_txn: bool, with_flus
         }
         for i in 0..n_readers {
             let (m, k, reads) = (mgr.clone(), key.clone(), reads.clone());
+            // the three read paths that fill the cache: get, batch_get, get_user_state
+            let via = (reader_path + i) % 3;
             r.client(2 + i as u32, async move {
-                let g = mgr_get(&m, &k).await.ok().flatten();
+                let g = match (&k, via) {
+                    (Key::Node(n), 1) => m.batch_get::<TreeNodeWithPreviousValue>(&[NodeKey(node_label(*n))]).await.ok().and_then(|mut v| v.pop()),
+                    (Key::Vs(e), 1) => m.batch_get::<ValueState>(&[akd::storage::types::ValueStateKey(b"alice".to_vec(), *e)]).await.ok().and_then(|mut v| v.pop()),
+                    (Key::Vs(e), 2) => m.get_user_state(&AkdLabel(b"alice".to_vec()), ValueStateRetrievalFlag::SpecificEpoch(*e)).await.ok().map(DbRecord::ValueState),
+                    _ => mgr_get(&m, &k).await.ok().flatten(),
+                };
                 reads.lock().unwrap().push(g);
             });
         }
@@ -457,7 +464,7 @@ fn controlled(key_kind_idx: u8, n_readers: usize, writer_in_txn: bool, with_flus
     }
     if after != truth {
         l.violation(
-            format!("C16:read-fill-race/{}/{}{}", key_kind(&key), if writer_in_txn { "commit" } else { "set" }, if with_flush { "+flush" } else { "" }),
+            format!("C16:read-fill-race/{}/{}{}/path{}", key_kind(&key), if writer_in_txn { "commit" } else { "set" }, if with_flush { "+flush" } else { "" }, reader_path),
             format!("after writer and readers finished, a read through the manager returns {} but the database holds {} (a reader's late cache fill replaced the writer's entry)", summarize(&after), summarize(&truth)),
             json!({"key": format!("{key:?}"), "writer_in_transaction": writer_in_txn, "schedule": out.schedule(), "trace": out.trace.iter().map(|(t, d)| format!("{t}:{d}")).collect::<Vec<_>>()}),
         );
